@@ -577,7 +577,7 @@ class Z80(Snapshot):
                     size = len(reg) - 1
                 else:
                     size = len(reg)
-                if reg == 'pc' and sum(self.header[6:8]) > 0:
+                if reg == 'pc' and len(self.header) == 30:
                     offset = 6
                 else:
                     offset = Z80_REGISTERS.get(reg, -1)
@@ -687,12 +687,18 @@ class Z80(Snapshot):
 
     def data(self):
         z80 = bytearray()
-        if len(self.header) == 30:
+        if len(self.header) == 30 and sum(self.header[6:8]) > 0:
             # Version 1
             self.header[12] |= 32 # RAM is compressed
             z80.extend(self.header)
             ram = self.memory.banks[5] + self.memory.banks[2] + self.memory.banks[0]
             z80.extend(self._make_z80_ram_block(ram))
+        elif len(self.header) == 30:
+            # Version 1 cannot represent PC=0: write a version 3 header instead
+            z80.extend(self.header)
+            z80.extend([54] + [0] * 55)
+            for page, bank in ((8, 5), (4, 2), (5, 0)):
+                z80.extend(self._make_z80_ram_block(self.memory.banks[bank], page))
         else:
             z80.extend(self.header)
             for bank, data in enumerate(self.memory.banks, 3):
